@@ -22,9 +22,7 @@ def listener_pipeline(res, tier, clauses, pid, only_mix=None):
             cov["states"] += r["distinct"]
             cov["transitions"] += r["generated"]
             cov["model_runs"].append(dict(cfg=cfg, distinct_states=r["distinct"], depth=r["depth"]))
-        rp = run_tlc(tmp, "L4Listener_MC.tla", "L4Listener_A_TRUE.cfg", timeout=600)
-        if not any("NoReuseWhileReferenced" in e for e in rp["errors"]):
-            raise Inconclusive("self-test: TLC no longer finds the pooled-buffer reuse with PutOnHijack=TRUE")
+        rp = run_tlc_expect(tmp, "L4Listener_MC.tla", "L4Listener_A_TRUE.cfg", ["NoReuseWhileReferenced"], "TLC no longer finds the pooled-buffer reuse with PutOnHijack=TRUE", timeout=600)
         cov["model_selftest"] = "NoReuseWhileReferenced fails in L4Listener with PutOnHijack=TRUE (pinned commit), holds with FALSE"
         g = run_tlc(tmp, "L4ListenerGrid.tla", f"L4ListenerGrid_{tier}.cfg", workers=1, timeout=300)
         tlc_ok(g, "L4ListenerGrid")
